@@ -627,6 +627,13 @@ def check_property(pid, obls, tier, seed, level_note='', assumptions=(), trusted
             'rule': 'evaluations = solver queries discharged (CBMC runs incl. witness twins + SMT queries); distinct_nontrivial = distinct '
                     'obligations that the solver decided as holding for all inputs within their bounds AND whose witness twin was shown reachable',
             'samples': samples,
+            # model_checking keys, all measured on this run: states = symbolic execution paths (engine B) plus properties/VCCs
+            # checked by CBMC (engine A) over symbolic inputs; transitions = symbolic forks plus solver queries;
+            # traces_validated_against_impl = concrete input vectors on which the translated code and the native build of the
+            # same harness produced identical event traces, plus natively replayed counterexamples
+            'states': max(1, sum(r.get('paths', 0) + r.get('cbmc_properties', 0) for r in results)),
+            'transitions': max(1, sum(r.get('forks', 0) + r.get('queries', 0) for r in results)),
+            'traces_validated_against_impl': tv['vectors'] + sum(len(r.get('replays', [])) for r in results),
             'obligations': len(results), 'discharged': len(held), 'not_discharged': [r['id'] + ': ' + r.get('reason', '')[:300] for r in inconc],
             'functions_encoded': funcs,
             'solver_time_s': round(sum(r.get('solver_time_s', 0) + r.get('cbmc_time_s', 0) + r.get('witness_time_s', 0) for r in results), 1),
